@@ -46,6 +46,7 @@ type Scenario struct {
 	HealStep int          `json:"heal_step"` // and removed before this step
 	// ReadProbe: at the end (no block cache) fail table reads and look every key up
 	ReadProbe bool `json:"read_probe"`
+	Idx       int  `json:"idx"`
 }
 
 type bstat struct {
@@ -59,6 +60,7 @@ type bstat struct {
 type outcome struct {
 	msg      string // violation text, "" if none
 	hung     string // a call did not return (C09's business; scenario skipped)
+	known    string // id of the recorded (unrepaired) defect this failure is an instance of
 	faultHit int
 	stats    map[string]int
 	kcase    string
@@ -213,6 +215,24 @@ func runScenario(sc *Scenario) (out outcome) {
 		}
 	}()
 	var faults []*vstor.Fault
+	// manHits: how often a manifest write/sync fault has fired so far (for the attribution of known finding C11-K1)
+	manHits := func() int {
+		n := 0
+		for _, f := range faults {
+			if f.Type == storage.TypeManifest && (f.Kind == vstor.OpSync || f.Kind == vstor.OpWrite) {
+				n += f.Hits
+			}
+		}
+		return n
+	}
+	k1 := false // a transaction commit (explicit, or DB.Write's own for a batch above the write buffer) failed while a manifest write/sync fault fired
+	batchBytes := func(recs []dbh.Rec) int {
+		n := 12
+		for _, r := range recs {
+			n += len(r.K) + len(r.V) + 11
+		}
+		return n
+	}
 	arm := func() {
 		for _, f := range sc.Faults {
 			vf := &vstor.Fault{Kind: vstor.OpKind(f.Kind), Type: storage.FileType(f.Type), K: f.K, Persistent: f.Persistent, PartialPermille: f.Partial}
@@ -253,7 +273,11 @@ func runScenario(sc *Scenario) (out outcome) {
 			bi++
 			s.issued = true
 			s.b.StartIdx = stor.OpCount()
+			mh := manHits()
 			err, to := call(T, func() error { return db.Write(wl.MkBatch(s.b.Recs), &opt.WriteOptions{Sync: st.Sync}) })
+			if err != nil && manHits() > mh && batchBytes(s.b.Recs) > sc.W.Cfg.WriteBuffer/2 {
+				k1 = true
+			}
 			if to {
 				out.hung = fmt.Sprintf("Write of batch %d did not return within %v", s.b.ID, T)
 				return
@@ -272,6 +296,7 @@ func runScenario(sc *Scenario) (out outcome) {
 			bi++
 			s.issued = true
 			s.b.StartIdx = stor.OpCount()
+			mh := manHits()
 			err, to := call(T, func() error {
 				tr, err := db.OpenTransaction()
 				if err != nil {
@@ -295,6 +320,9 @@ func runScenario(sc *Scenario) (out outcome) {
 			s.ok = err == nil
 			if err != nil {
 				out.stats["errored_txns"]++
+				if manHits() > mh {
+					k1 = true
+				}
 			}
 		case "compact":
 			_, to := call(T, func() error { return db.CompactRange(util.Range{}) })
@@ -358,6 +386,11 @@ func runScenario(sc *Scenario) (out outcome) {
 	}
 	if err != nil {
 		out.msg = "reopen after the faults were removed fails: " + err.Error()
+		if k1 && strings.Contains(err.Error(), "file missing") {
+			// recorded, unrepaired defect C11-K1 (known_findings.txt): the failed commit's record stayed in the manifest,
+			// its tables were removed by the discard, the next Open names missing files
+			out.known = "C11-K1"
+		}
 		return
 	}
 	defer closeBounded(db2)
@@ -414,7 +447,12 @@ func kCase(sc *Scenario, ops []vstor.Op, bs []*bstat, db2 *leveldb.DB) string {
 func main() {
 	a := vlib.ParseArgs()
 	res := vlib.NewResult("C08", a.Out, "marker-carrying workloads (writes, batches, oversized batches, transactions, CompactRange, reopen; tiny buffers) x fault positions: the k-th {write, sync, create, open, read, remove, closew} on {journal, manifest, table} files, once or persistently, partial writes, singly (quick) or in pairs (thorough), armed at a random step and healed at a later one; checked while faults are active (errors allowed, wrong data not), after healing, and after close + reopen against the three-valued batch oracle read off the unique markers; non-trivial = a fault actually fired on a journal/manifest/table write, sync, create or remove (not a read)")
-	defer res.Write()
+	skipWrite := false
+	defer func() {
+		if !skipWrite {
+			res.Write()
+		}
+	}()
 	if a.Replay != "" {
 		b, err := os.ReadFile(a.Replay)
 		if err != nil {
@@ -441,7 +479,12 @@ func main() {
 		fmt.Println("replay passes")
 		return
 	}
-	nscen := 400
+	if vlib.SuperviseIfParent(a.Out) {
+		skipWrite = true
+		return
+	}
+	guard := vlib.NewGuard(a.Out)
+	nscen := 800
 	if a.Thorough() {
 		nscen = 30000
 	}
@@ -455,12 +498,28 @@ func main() {
 	var wg sync.WaitGroup
 	var kmu sync.Mutex
 	var kcases []string
+	knownSeen := map[string]bool{}
 	for w := 0; w < 16; w++ {
 		wg.Add(1)
 		go func() {
 			defer wg.Done()
 			for sc := range jobs {
+				if cr, ok := guard.Crashed(sc.Idx); ok {
+					if _, only := guard.Only(); !only {
+						res.Eval(fmt.Sprintf("crashed/%d", sc.Idx), true)
+						res.Violate(cr.Desc+" ["+sc.W.Cfg.String()+"]", sc)
+					}
+					continue
+				}
+				guard.Start(sc.Idx)
 				out := runScenario(sc)
+				if _, only := guard.Only(); only {
+					// run it a few more times: a crash is what the supervisor looks for
+					for t := 0; t < 2; t++ {
+						runScenario(sc)
+					}
+				}
+				guard.Finish(sc.Idx)
 				var fs []string
 				for _, f := range sc.Faults {
 					fs = append(fs, f.String())
@@ -493,6 +552,17 @@ func main() {
 					}
 					kmu.Unlock()
 				}
+				if out.msg != "" && out.known != "" {
+					res.Count("known_finding_"+out.known, 1)
+					kmu.Lock()
+					first := !knownSeen[out.known]
+					knownSeen[out.known] = true
+					kmu.Unlock()
+					if first {
+						res.ViolateKnown(fmt.Sprintf("%s [faults %s armed at step %d healed at step %d; %s]", out.msg, strings.Join(fs, " + "), sc.ArmStep, sc.HealStep, sc.W.Cfg.String()), sc, out.known)
+					}
+					continue
+				}
 				if out.msg != "" && res.NViolations() < 6 {
 					res.Violate(fmt.Sprintf("%s [faults %s armed at step %d healed at step %d; %s]", out.msg, strings.Join(fs, " + "), sc.ArmStep, sc.HealStep, sc.W.Cfg.String()), sc)
 				}
@@ -506,7 +576,7 @@ func main() {
 		if r.Chance(1, 2) {
 			w.Cfg.MaxManifest = 0
 		}
-		sc := &Scenario{W: w}
+		sc := &Scenario{W: w, Idx: i}
 		if r.Chance(1, 3) {
 			sc.ReadProbe = true
 			w.Cfg.BlockCache = -1
@@ -556,6 +626,9 @@ func main() {
 		sc.HealStep = sc.ArmStep + 1 + r.Intn(n-sc.ArmStep)
 		if i < 2 {
 			res.Sample(map[string]interface{}{"faults": sc.Faults, "arm_step": sc.ArmStep, "heal_step": sc.HealStep, "steps": len(w.Steps), "cfg": w.Cfg.String()})
+		}
+		if guard.Skip(i) {
+			continue
 		}
 		jobs <- sc
 	}
